@@ -17,14 +17,16 @@ RULE = (
     "cases = keyword arguments for trace_res/plane_res drawn log-uniformly (dimensions over 12 decades, "
     "resistivity over 6, temp -200..500, tcr 0..0.1, defaults present/absent) plus the documentation "
     "examples; every call made (base and metamorphic re-invocations) passes through a post-condition "
-    "wrapper that compares with the closed form in Fraction arithmetic; a case is non-trivial when all "
+    "wrapper that compares with the closed form in Fraction arithmetic; one case in five also passes one argument "
+    "(temp, tcr, rho or the length; float or int dtype) as a numpy array, twice with the same array object, and "
+    "requires every element of both results to equal the scalar call for that element; a case is non-trivial when all "
     "metamorphic relations were evaluated on a finite non-zero resistance; distinct = distinct argument dicts"
 )
 REQUIRED = [
     "trace.closed_form", "plane.closed_form", "trace.prop_length", "trace.prop_rho", "trace.inv_thickness",
     "trace.inv_mean_width", "trace.affine_temp", "trace.symmetry_w1w2", "plane.prop_length",
     "plane.prop_rho", "plane.inv_thickness", "plane.inv_width", "plane.affine_temp", "trace_eq_plane",
-    "defaults",
+    "defaults", "trace.sweep_elementwise", "plane.sweep_elementwise",
 ]
 SIZES = {"quick": 4000, "thorough": 40000}
 ASSUMPTIONS = [
@@ -65,16 +67,22 @@ def setup(ctx):
 
     def trace_res(**k):
         r = orig_t(**k)
-        _post("trace", k, r, _exact_trace)
+        if not _has_array(k):  # (array-valued calls are judged element by element in run())
+            _post("trace", k, r, _exact_trace)
         return r
 
     def plane_res(**k):
         r = orig_p(**k)
-        _post("plane", k, r, _exact_plane)
+        if not _has_array(k):
+            _post("plane", k, r, _exact_plane)
         return r
 
     trace_res._slmon = plane_res._slmon = True
     u.trace_res, u.plane_res = trace_res, plane_res
+
+
+def _has_array(k):
+    return any(hasattr(v, "shape") and getattr(v, "shape", ()) != () for v in k.values())
 
 
 def _post(which, k, r, exact):
@@ -88,6 +96,32 @@ def _post(which, k, r, exact):
 def _close(ctx, clause, a, b, scale, detail):
     ok = math.isfinite(a) and math.isfinite(b) and abs(a - b) <= 16 * REL * scale
     ctx.check(clause, ok, lambda: dict(detail, lhs=a, rhs=b, scale=scale))
+
+
+def _sweep(ctx, u, case, t, p, o):
+    """One argument as a numpy array: every element of the result is the scalar formula of that element, also when
+    the caller evaluates both functions (or one function twice) over the same array object."""
+    import numpy as np
+
+    sw = case["sweep"]
+    arr = np.array(sw["values"], dtype=int if sw["dtype"] == "int" else float)
+    for which, fn, base, key in (("trace", u.trace_res, dict(t, **o), "l_mm"), ("plane", u.plane_res, dict(p, **o), "l")):
+        name = key if sw["param"] == "length" else sw["param"]
+        expected = [fn(**dict(base, **{name: (int(v) if sw["dtype"] == "int" else float(v))})) for v in sw["values"]]
+        for rep in (1, 2):  # the same array object is used for both calls, as in a user's sweep script
+            try:
+                got = fn(**dict(base, **{name: arr}))
+                got = [float(x) for x in np.asarray(got, dtype=float).ravel()]
+                outcome = ""
+            except Exception as e:  # noqa: BLE001
+                got, outcome = [], "%s: %s" % (type(e).__name__, e)
+            ok = len(got) == len(expected) and all(
+                math.isfinite(a) and abs(a - b) <= 1e-12 * max(abs(a), abs(b)) + 1e-300 for a, b in zip(got, expected))
+            ctx.check(which + ".sweep_elementwise", ok,
+                      lambda: {"fn": which + "_res", "swept": name, "dtype": sw["dtype"], "values": sw["values"], "call": rep,
+                               "returned": got, "expected_per_element": expected, "outcome": outcome,
+                               "array_after_call": [float(x) for x in arr]})
+    ctx.count("sweep", "%s/%s" % (sw["param"], sw["dtype"]))
 
 
 def _lu(rng, lo, hi):
@@ -111,7 +145,21 @@ def gen(rng, i, tier):
     if rng.random() < 0.1:
         t = {k: float(round(v, 3)) or 1.0 for k, v in t.items()}
     k = rng.choice([2.0, 3.0, 0.1, rng.uniform(0.01, 100.0), _lu(rng, -3, 3)])
-    return {"trace": t, "plane": p, "opt": opt, "k": k, "t2": rng.uniform(-200, 500)}
+    case = {"trace": t, "plane": p, "opt": opt, "k": k, "t2": rng.uniform(-200, 500)}
+    if rng.random() < 0.2:
+        # a parameter sweep: one argument given as a numpy array (the formulas are element-wise)
+        par = rng.choice(["temp", "temp", "tcr", "rho", "length"])
+        if par == "temp":
+            vals = [float(rng.randint(-55, 150)) for _ in range(rng.randint(2, 5))]
+            dtype = rng.choice(["float", "float", "int"])
+        elif par == "tcr":
+            vals, dtype = [rng.uniform(0, 0.01) for _ in range(3)], "float"
+        elif par == "rho":
+            vals, dtype = [_lu(rng, -9, -6) for _ in range(3)], "float"
+        else:
+            vals, dtype = [_lu(rng, -2, 3) for _ in range(4)], "float"
+        case["sweep"] = {"param": par, "values": vals, "dtype": dtype}
+    return case
 
 
 def directed():
@@ -178,6 +226,8 @@ def run(ctx, case):
     dflp = u.plane_res(**p)
     expp = u.plane_res(**dict(p, rho=RHO_DOC, temp=20.0, tcr=TCR_DOC))
     _close(ctx, "defaults", dflp, expp, abs(expp), d)
+    if case.get("sweep"):
+        _sweep(ctx, u, case, t, p, o)
     if sR is not None and R != 0.0 and math.isfinite(R) and P != 0.0:
         ctx.nontrivial([t, p, o])
     ctx.sample({"trace_res_kwargs": ta, "returned": R, "plane_res_kwargs": pa, "returned_plane": P})
